@@ -863,6 +863,54 @@ func (vc *VC) evalCall(env *Env, t CCall) Term {
 		h := vc.heapGet(env.cur, key)
 		k = vc.coerceTo(k, strings.TrimPrefix(strings.Split(h.Sort, " ")[1], ""))
 		return tBool(sel(h.S, k.S))
+	case "ref":
+		// ref(T, e): the reference e viewed as a *T (spec functions return untyped references)
+		id, ok := t.Args[0].(CIdent)
+		if !ok {
+			vc.unsup("ref(Type, expr) expected")
+		}
+		tn := env.lookupType(id.Name)
+		if tn == nil {
+			vc.unsup("ref(): unknown type %s", id.Name)
+		}
+		x := vc.evalTerm(env, t.Args[1])
+		return Term{S: x.S, Sort: SInt, T: types.NewPointer(tn)}
+	case "heap":
+		// heap(Type.field): the whole field map (object reference -> value) in the current state
+		cf, ok := t.Args[0].(CField)
+		if !ok {
+			vc.unsup("heap(Type.field) expected")
+		}
+		var tn types.Type
+		if id, ok := cf.X.(CIdent); ok {
+			tn = env.lookupType(id.Name)
+		} else if pf, ok := cf.X.(CField); ok {
+			if pid, ok := pf.X.(CIdent); ok {
+				tn = env.lookupType(pid.Name + "." + pf.Name)
+			}
+		}
+		if tn == nil {
+			vc.unsup("heap(): unknown type")
+		}
+		stt, ok := tn.Underlying().(*types.Struct)
+		if !ok {
+			vc.unsup("heap(): not a struct type")
+		}
+		for i := 0; i < stt.NumFields(); i++ {
+			if stt.Field(i).Name() == cf.Name {
+				key, fs := vc.fieldKey(tn, stt, i)
+				if fs == "" {
+					vc.unsup("heap(): composite field")
+				}
+				h := vc.heapGet(env.cur, key)
+				return Term{S: h.S, Sort: h.Sort}
+			}
+		}
+		if gk, ok := vc.eng.ghostKey(tn, cf.Name); ok {
+			h := vc.heapGet(env.cur, gk)
+			return Term{S: h.S, Sort: h.Sort}
+		}
+		vc.unsup("heap(): no field %s", cf.Name)
 	case "rawbyte":
 		// rawbyte(r, j): byte j of backing array r in the current byte memory
 		r := vc.evalTerm(env, t.Args[0])
